@@ -353,15 +353,25 @@ def p_quoting(p):
     p[0] = p[1]
 
 
+def _with_number(cls, expr, token_value):
+    """build a Fuzzy, Proximity or Boost, a malformed number being a syntax error"""
+    try:
+        return cls(expr, token_value.value)
+    except (ArithmeticError, ValueError):
+        raise ParseSyntaxError(
+            "Syntax error in input : invalid number '%s' at position %d!" %
+            (token_value.value, token_value.pos))
+
+
 def p_proximity(p):
     '''unary_expression : PHRASE APPROX'''
-    p[0] = Proximity(p[1], p[2].value)
+    p[0] = _with_number(Proximity, p[1], p[2])
     head_tail.post_unary(p)
 
 
 def p_boosting(p):
     '''unary_expression : unary_expression BOOST'''
-    p[0] = Boost(p[1], p[2].value)
+    p[0] = _with_number(Boost, p[1], p[2])
     head_tail.post_unary(p)
 
 
@@ -372,7 +382,7 @@ def p_terms(p):
 
 def p_fuzzy(p):
     '''unary_expression : TERM APPROX'''
-    p[0] = Fuzzy(p[1], p[2].value)
+    p[0] = _with_number(Fuzzy, p[1], p[2])
     head_tail.post_unary(p)
 
 
